@@ -689,6 +689,8 @@ MOTIONS = ("translate", "rotate", "mirror")
 def _move(mesh, how):
     if how == "translate":
         mesh.Translate(0.7, -1.3, 0.0 if mesh.inDim == 2 else 0.45)
+    elif how == "lift":        # a plane mesh translated out of the plane z = 0
+        mesh.Translate(0.7, -1.3, 0.6)
     elif how == "rotate":
         if mesh.inDim == 2:
             mesh.Rotate(37.0, (0.3, -0.2, 0), (0, 0, 1))
@@ -872,8 +874,14 @@ def _native_locate(et, how, seed):
     want = f(q)
     if how and how != "plain":
         from EasyFEA.Geoms import Translate, Rotate, Symmetry
+        # the field is first evaluated where the mesh is (whatever the location machinery memoises is memoised now), then the mesh moves
+        v0 = np.asarray(mesh.Evaluate_dofsValues_at_coordinates(q, u)).ravel()
+        if np.abs(v0 - want).max() > 1e-6 * np.abs(want).max():
+            return dict(err=float(np.abs(v0 - want).max() / np.abs(want).max()), missing=int((v0 == 0).sum()), order=order, nq=len(q), before_motion=True)
         _move(mesh, how)
-        if how == "translate":
+        if how == "lift":
+            q = Translate(q, 0.7, -1.3, 0.6)
+        elif how == "translate":
             q = Translate(q, 0.7, -1.3, 0.0 if mesh.inDim == 2 else 0.45)
         elif how == "rotate":
             q = Rotate(q, 37.0, (0.3, -0.2, 0) if dim == 2 else (0.3, -0.2, 0.1), (0, 0, 1) if dim == 2 else (1, 2, 0.5))
@@ -1192,7 +1200,7 @@ def build(tier, seed):
         obs.append(Ob(f"C08.embedded.{et}", ob_embedded, (et, 2), "X", (f"{GE}::_GroupElem._Get_sysCoord_e", f"{GE}::_GroupElem.Get_F_e_pg"), bound="one tilted polygon mesh",
                       clause="embedded surface: area kept, normals consistently +-R ez", timeout=600))
     for et in TYPES_2D + TYPES_3D:
-        hows = ["plain", "mirror"] + (["rotate", "translate"] if thorough or et in ("TRI3", "QUAD4", "TETRA4", "HEXA8") else []) + (["tilt"] if _dim(et) == 2 and (thorough or et in ("TRI3", "QUAD4")) else [])
+        hows = ["plain", "mirror"] + (["rotate", "translate"] if thorough or et in ("TRI3", "QUAD4", "TETRA4", "HEXA8") else []) + (["tilt", "lift"] if _dim(et) == 2 and (thorough or et in ("TRI3", "QUAD4", "TRI6")) else [])
         if not thorough and et in ("TRI15", "HEXA27", "PRISM18", "HEXA20"):
             hows = ["plain"]
         for how in hows:
